@@ -444,6 +444,8 @@ class XMLResource(XMLResourceLoader):
                 return cast(IOType, urlopen(url, timeout=self._timeout))
             except URLError as err:
                 raise XMLResourceOSError(f"can't access to resource {url!r}: {err.reason}")
+            except ValueError as err:
+                raise XMLResourceOSError(f"can't access to resource {url!r}: {err}")
 
         if use_loaded and self.text is not None:
             fp: IOType = StringIO(self.text)
